@@ -2,7 +2,7 @@
 import os
 
 from . import core
-from .rules import stdio, cert, mark, exact, optstore, inval, idx, atomic, own, tokens, idxclass, copy, pair, structfree, buf, div, counter, sentinel, appendinit, verdict, basismap, zerotol, escape, lenclass, djsym, ndet, useb4check, norms, opencheck, shell, esolver, errlost, rescan, certdep, neverset, fmt, defaults, scratch, fullscan, slotleak, floatidx, sensemap, trunc, vtypezero, allockind, intdiv, strscan, localfield, rawidx, argcap, staleptr, condalloc, lpstate, vstattype, alphabet, outleak, fieldleak, lenm1, basisdim, dupmark, rowcopy, normlen, logonly, decacc, nzcount, infmap, lognofail, outunset, dupentry, digitseen, signedidx, strcap, nulterm, finite, nullret, pcheck, probstat, dzfresh, kwtable, headguard, hitused, optptr, noindex
+from .rules import stdio, cert, mark, exact, optstore, inval, idx, atomic, own, tokens, idxclass, copy, pair, structfree, buf, div, counter, sentinel, appendinit, verdict, basismap, zerotol, escape, lenclass, djsym, ndet, useb4check, norms, opencheck, shell, esolver, errlost, rescan, certdep, neverset, fmt, defaults, scratch, fullscan, slotleak, floatidx, sensemap, trunc, vtypezero, allockind, intdiv, strscan, localfield, rawidx, argcap, staleptr, condalloc, lpstate, vstattype, alphabet, outleak, fieldleak, lenm1, basisdim, dupmark, rowcopy, normlen, logonly, decacc, nzcount, infmap, lognofail, outunset, dupentry, digitseen, signedidx, strcap, nulterm, finite, nullret, pcheck, probstat, dzfresh, kwtable, headguard, hitused, optptr, noindex, colen, pastcol
 from .effects import Effects
 
 FIX = os.path.join(os.path.dirname(os.path.abspath(__file__)), "fixtures")
@@ -290,7 +290,7 @@ PROPS = {
     "C07": {
         "rules": [lambda prog, tier: idx.run(prog), lambda prog, tier: atomic.run(prog), lambda prog, tier: shell.run(prog, shared_eff(prog)),
                   lambda prog, tier: lpstate.run(prog),
-                  lambda prog, tier: alphabet.run(prog, shared_eff(prog)), lambda prog, tier: basisdim.run(prog), lambda prog, tier: dupmark.run(prog), lambda prog, tier: logonly.run(prog), lambda prog, tier: lognofail.run(prog), lambda prog, tier: outunset.run(prog), lambda prog, tier: alphabet.run_narrow(prog), lambda prog, tier: dupentry.run(prog), lambda prog, tier: own.run_loadkeep(prog), lambda prog, tier: own.run_basiscard(prog, shared_eff(prog)), lambda prog, tier: own.run_basissense(prog, shared_eff(prog)), lambda prog, tier: idx.run_pubstruct(prog), lambda prog, tier: noindex.run(prog), lambda prog, tier: pcheck.run(prog), lambda prog, tier: headguard.run(prog),
+                  lambda prog, tier: alphabet.run(prog, shared_eff(prog)), lambda prog, tier: basisdim.run(prog), lambda prog, tier: dupmark.run(prog), lambda prog, tier: logonly.run(prog), lambda prog, tier: lognofail.run(prog), lambda prog, tier: outunset.run(prog), lambda prog, tier: alphabet.run_narrow(prog), lambda prog, tier: dupentry.run(prog), lambda prog, tier: own.run_loadkeep(prog), lambda prog, tier: own.run_basiscard(prog, shared_eff(prog)), lambda prog, tier: own.run_basissense(prog, shared_eff(prog)), lambda prog, tier: idx.run_pubstruct(prog), lambda prog, tier: noindex.run(prog), lambda prog, tier: pcheck.run(prog), lambda prog, tier: headguard.run(prog), lambda prog, tier: headguard.run_hashof(prog),
                   lambda prog, tier: errlost.run(prog, scope_funcs=set(prog.reachable(sorted(f.key for f, _ in inval.api_functions(prog)))), floor=150)],
         "technique": "interprocedural taint of API index/selector arguments + path-sensitive must-analysis of range-guard facts "
                      "(right dimension, right strictness) on clang::CFG with callee preconditions propagated to the API boundary and "
@@ -390,6 +390,7 @@ PROPS = {
         "rules": [lambda prog, tier: exact.run(prog, {"WRITE": {"roots": ["mpq_QSwrite_prob", "mpq_QSwrite_prob_file", "mpq_QSreport_prob"], "closure": True},
                                                      "READ": {"roots": ["mpq_QSread_prob", "mpq_QSget_prob"], "closure": True, "word": True}},
                                                floors=[("exact literal parser on the LP/MPS read path", ["mpq_QSread_prob"], "mpq_EGlpNumReadStrXc", 1)]),
+                  lambda prog, tier: headguard.run_hashof(prog),
                   lambda prog, tier: tokens.run_lp(prog),
                   lambda prog, tier: tokens.run_sections(prog, "mpq_ILLwrite_lp", {"End"}, print_funcs={"mpq_ILLprint_report": 1}, token_ok=lambda t: t[0].isupper()),
                   lambda prog, tier: idxclass.run(prog, scope_units=("lp_mpq.c", "write_lp_mpq.c", "rawlp_mpq.c")),
@@ -488,7 +489,7 @@ PROPS = {
                   lambda prog, tier: djsym.run(prog),
                   lambda prog, tier: zerotol.run(prog, shared_eff(prog), "simplex"),
                   lambda prog, tier: counter.run(prog),
-                  lambda prog, tier: idxclass.run(prog, scope_units=("basis_mpq.c", "lib_mpq.c", "qsopt_mpq.c", "qsopt_ex/exact.c")),
+                  lambda prog, tier: idxclass.run(prog, scope_units=("basis_mpq.c", "lib_mpq.c", "qsopt_mpq.c", "qsopt_ex/exact.c", "simplex_mpq.c", "fct_mpq.c")),
                   lambda prog, tier: lenclass.run(prog, scope_units=("basis_mpq.c", "lib_mpq.c", "qsopt_mpq.c", "qsopt_ex/exact.c", "lpdata_mpq.c")),
                   lambda prog, tier: escape.run(prog)],
         "technique": "must-precede path-sensitive dataflow on clang::CFG for the producer/consumer chain of the exact verdict functions; "
@@ -546,6 +547,7 @@ PROPS = {
     "C17": {
         "rules": [lambda prog, tier: buf.run(prog),
                   lambda prog, tier: idx.run(prog), lambda prog, tier: idx.run_pubstruct(prog), lambda prog, tier: optptr.run(prog),
+                  lambda prog, tier: colen.run(prog), lambda prog, tier: pastcol.run(prog),
                   lambda prog, tier: idxclass.run(prog),
                   lambda prog, tier: lenclass.run(prog),
                   lambda prog, tier: lenclass.run_capacity(prog),
@@ -814,12 +816,23 @@ for _pid in ("C08", "C09", "C14", "C19"):
     _ADD[_pid]["explanation"] = _ADD[_pid].get("explanation", "") + (" (R-TRUNC) a snprintf / vsnprintf whose buffer the same function hands to an "
                                                                       "output stream has its returned length examined: output lines are never silently cut.")
     _ADD[_pid]["technique"] = _ADD[_pid].get("technique", "") + "; formatted-write census of the output layer (buffer-to-stream flow, return value use)"
+for _pid in ("C07", "C08"):
+    _ADD.setdefault(_pid, {})
+    _ADD[_pid]["explanation"] = _ADD[_pid].get("explanation", "") + (
+        " (R-HASHOF) a new name is chained into the bucket of its own hash: on every path to a head insertion through the scratch field "
+        "ILLsymboltab::the_hash, the last definition of that field (a stringhash assignment, or a callee that computes it from its string "
+        "parameter) names the string handed to add_string, and no call that may resize the table lies in between - otherwise a renamed "
+        "entry cannot be found and its name is accepted a second time (the LP writer's repaired names).")
 _ADD.setdefault("C17", {})
 _ADD["C17"]["explanation"] = _ADD["C17"].get("explanation", "") + (
     " (R-PUBSTRUCT) a caller-supplied array of a public function is not subscripted inside a loop whose bound is a dimension of the internal "
     "column space (the caller's vectors have one entry per row or per structural column), and no caller-supplied index is compared with "
     "such a dimension. (R-OPTPTR) a pointer parameter that a function compares with NULL, and for which NULL can arrive, is dereferenced "
-    "only where a non-NULL fact for it holds on the path.")
+    "only where a non-NULL fact for it holds on the path. (R-COLEN) pointer fields of one record that loops walk with a counter bounded by the same "
+    "field of that record are allocated with the same length expression wherever a function allocates two or more of them (parallel arrays). "
+    "(R-PASTCOL) a subscript of the matrix arrays by matbeg[c] + matcnt[c], the slot behind column c, is dominated by a condition on the array's "
+    "capacity or free count (or sits in the branch of an empty column). R-IDXCLASS also types the positions among the non-basic columns "
+    "(bounded by lpinfo::nnbasic) as a space of their own: such a counter does not subscript an array indexed by internal column numbers.")
 for _pid, _d in _ADD.items():
     for _k, _v in _d.items():
         PROPS[_pid][_k] = PROPS[_pid].get(_k, "") + _v
